@@ -57,13 +57,14 @@ const (
 	CtMapRanges        // range statements over maps in the library whose order came from the tape
 	CtMapKeysUnordered // pointers in map keys first seen at a range statement (their relative order is the runtime's)
 	CtSelectOrders     // select statements in the library whose order of preference came from the tape
+	CtLibPanics        // runs cut short because a goroutine started by the library panicked
 	CtSimMicros        // simulated time covered by the run's clock, in microseconds
 	NumCounters
 )
 
 // CounterNames for evidence.
 var CounterNames = [NumCounters]string{"pool_get", "pool_get_hit", "pool_get_new", "pool_put",
-	"fault_putdrop", "fault_miss", "fault_gc", "gc_dropped_objects", "steps", "task_switches", "inner_yields", "fault_stall", "blocked_yields", "spin_breaks", "fault_clock_jump", "timers_fired", "library_goroutines_as_tasks", "finalizers_run", "library_random_draws", "library_map_ranges_ordered", "map_key_pointers_numbered_late", "library_selects_ordered", "simulated_microseconds"}
+	"fault_putdrop", "fault_miss", "fault_gc", "gc_dropped_objects", "steps", "task_switches", "inner_yields", "fault_stall", "blocked_yields", "spin_breaks", "fault_clock_jump", "timers_fired", "library_goroutines_as_tasks", "finalizers_run", "library_random_draws", "library_map_ranges_ordered", "map_key_pointers_numbered_late", "library_selects_ordered", "runs_cut_short_library_goroutine_panicked", "simulated_microseconds"}
 
 // FaultDen is the denominator of all fault rates.
 const FaultDen = 256
@@ -157,6 +158,7 @@ type Sim struct {
 	finishedRun   bool
 	Deadlocked    string // non-empty: the run was abandoned because every live task was blocked
 	RaceAborted   bool   // the run was cut short because the race detector had already reported a race in it
+	LibPanicked   bool   // the run was cut short because a goroutine started by the library panicked
 	raceBase      int
 	step0         int // step count when the current Run began
 	inRun         bool
@@ -368,6 +370,18 @@ func (s *Sim) Go(name string, fn func(*Task)) *Task {
 	return t
 }
 
+// notePanic: a goroutine the library started has panicked. In a real program
+// that ends the process; here the run is cut short without a verdict (the
+// harness also applies operations the library rejects by panicking, and a
+// variant that moves work into goroutines of its own panics there instead).
+//
+//go:norace
+func (t *Task) notePanic() {
+	if !t.root {
+		t.sim.LibPanicked = true
+	}
+}
+
 func (t *Task) main() {
 	t.g = getg()
 	raceDisable()
@@ -377,10 +391,21 @@ func (t *Task) main() {
 		defer func() {
 			if r := recover(); r != nil {
 				t.PanicVal = r
+				t.notePanic()
 			}
 		}()
 		t.fn(t)
 	}()
+	t.finish()
+}
+
+// finish reports the end of the task to the scheduler. (Not instrumented: a
+// goroutine the library started may end under another Sim than the one it was
+// started under - Adopt - and the scheduler's hand-offs are hidden from the
+// race detector.)
+//
+//go:norace
+func (t *Task) finish() {
 	raceDisable()
 	t.sim.yieldCh <- yieldMsg{t.ID, siteDone}
 	raceEnable()
@@ -580,20 +605,26 @@ func (s *Sim) startTask(name string, fn func()) {
 	t := &Task{ID: len(s.tasks), Name: name, sim: s, resume: make(chan int), parked: siteStart,
 		fn: func(*Task) { fn() }, started: true}
 	n := len(s.tasks)
-	bigger := make([]*Task, n+1)
-	for i := 0; i < n; i++ {
-		bigger[i] = s.tasks[i]
+	if n == cap(s.tasks) {
+		bigger := make([]*Task, n, 2*n+8)
+		for i := 0; i < n; i++ {
+			bigger[i] = s.tasks[i]
+		}
+		s.tasks = bigger
 	}
-	bigger[n] = t
-	s.tasks = bigger
+	s.tasks = s.tasks[:n+1]
+	s.tasks[n] = t
 	if s.inRun {
 		m := len(s.spawned)
-		sp := make([]*Task, m+1)
-		for i := 0; i < m; i++ {
-			sp[i] = s.spawned[i]
+		if m == cap(s.spawned) {
+			sp := make([]*Task, m, 2*m+8)
+			for i := 0; i < m; i++ {
+				sp[i] = s.spawned[i]
+			}
+			s.spawned = sp
 		}
-		sp[m] = t
-		s.spawned = sp
+		s.spawned = s.spawned[:m+1]
+		s.spawned[m] = t
 	}
 	if s.Strategy == StratPCT {
 		t.prio = 1 + s.Sched.Draw(n+1)
@@ -720,9 +751,17 @@ func (s *Sim) Run(estSteps int) {
 			s.Deadlocked = "run cut short after a data race report"
 			break
 		}
-		if s.step-s.step0 > 8*s.MaxSteps+1000 {
+		if s.LibPanicked {
+			s.Counters[CtLibPanics]++
+			s.Deadlocked = "run cut short: a goroutine started by the library panicked"
+			break
+		}
+		if s.step-s.step0 > 64*s.MaxSteps+200000 {
+			// (generous: with goroutines of its own a library spends many steps
+			// on tasks that only retry a wait; a run that really does not end is
+			// also caught by the deadlock detector and the watchdog)
 			raceEnable()
-			fatal("INFRA: simulated run does not terminate (step cap exceeded 8x)")
+			fatal("INFRA: simulated run does not terminate (step cap exceeded 64x)")
 		}
 		if s.GCNum > 0 && s.Sched.Coin(s.GCNum, FaultDen) {
 			s.GC()
@@ -854,7 +893,11 @@ func (s *Sim) Run(estSteps int) {
 		}
 		t := elig[idx]
 		s.innerGap = 0
-		if s.InnerG > 0 && s.InnerBudget > 0 && !t.blocked && (s.InnerSites == 0 || s.InnerSites&(1<<uint(t.parked)) != 0) {
+		// (also for a task resumed from a cooperative wait: when the wait is
+		// over it goes on into code that wants pre-empting like any other; and
+		// always for goroutines the library started - a harness restricts inner
+		// pre-emption to the steps of its own tasks that enter the library)
+		if s.InnerG > 0 && s.InnerBudget > 0 && (!t.root || s.InnerSites == 0 || s.InnerSites&(1<<uint(t.parked)) != 0) {
 			s.innerGap = s.Sched.Draw(s.InnerG)
 		}
 		s.pointsInStep = 0
@@ -982,19 +1025,35 @@ func (s *Sim) HandoffTake() (unsafe.Pointer, int, int) {
 // Adopt takes over the goroutines the library started under another Sim of
 // the same run (C19 executes its program twice): they are parked, and from
 // now on this Sim's scheduler resumes them. Pending timers move as well.
+//
+//go:norace
 func (s *Sim) Adopt(from *Sim) {
-	for _, t := range from.tasks {
+	for i := 0; i < len(from.tasks); i++ {
+		t := from.tasks[i]
 		if t.root || t.finished {
 			continue
 		}
 		t.sim = s
 		t.ID = len(s.tasks)
-		s.tasks = append(s.tasks, t)
+		n := len(s.tasks)
+		bigger := make([]*Task, n+1)
+		for k := 0; k < n; k++ {
+			bigger[k] = s.tasks[k]
+		}
+		bigger[n] = t
+		s.tasks = bigger
 	}
-	for _, tm := range from.timers {
+	for i := 0; i < len(from.timers); i++ {
+		tm := from.timers[i]
 		if !tm.dead {
 			tm.at = tm.at - from.now + s.now
-			s.timers = append(s.timers, tm)
+			n := len(s.timers)
+			bigger := make([]*simTimer, n+1)
+			for k := 0; k < n; k++ {
+				bigger[k] = s.timers[k]
+			}
+			bigger[n] = tm
+			s.timers = bigger
 		}
 	}
 	from.tasks = nil
